@@ -50,6 +50,17 @@ def world():
         n >= 2, w['ts'] >= 1, w['sd'] >= 1, S(0) == 0,
         z3.ForAll([i], z3.Implies(z3.And(1 <= i, i <= n), z3.And(S(i) == S(i - 1) + d(i), d(i) >= 1))))
     w['M'] = S(n)
+    w['dx'] = z3.Function('dx', INT, INT)
+    w['tl0'] = z3.Int('tl0')
+    dx, R = w['dx'], w['R']
+
+    def dx_axioms(drift):
+        # first period; the extension dx(i + n) == dx(i) for all i >= 1 is part of the definition of dx but is only
+        # ever used through explicit instances (Loop.instances): as a quantified hypothesis it is a matching loop
+        return z3.ForAll([i], z3.Implies(z3.And(1 <= i, i <= n), dx(i) == d(i) + z3.If(i == n, drift, 0)))
+    w['dx_periodic_live'] = dx_axioms(R - S(n))
+    w['dx_periodic_vod'] = z3.ForAll([i], z3.Implies(z3.And(1 <= i, i <= n), dx(i) == d(i)))
+    w['optval'] = lambda x: x.val if isinstance(x, Opt) else x
     w['live_clock'] = z3.And(w['E'] >= 0, w['B'] >= 0, w['F'] == w['E'] - MILLION * w['B'], w['F'] >= 0, w['W'] >= 0)
     w['__bases__'] = {}
     w['__ctors__'] = {
@@ -338,6 +349,105 @@ GENERATE_SEGMENT_LIST = Contract(
 )
 
 
+# ----------------------------------------------------------------------------- SegmentTimeline
+# Absolute indexing of the endlessly looped media, counted from the start of the loop the timeline begins in:
+# index i >= 1 is segment ((i-1) mod n)+1 of loop (i-1) div n.  dx is the periodic extension of the
+# drift-corrected durations dcan(m) = d(m) + (drift if m == n else 0); ghost `base` (a multiple of n) and
+# `a = base + mod_segment` carry the periodicity without any mod/div.
+TL_FIELDS = {'duration': INT, 'count': INT, 'start': 'opt_int', 'mod_segment': INT, 'a': INT, 't': INT}
+
+
+def ctor_timeline_element(eng, args, kw):
+    g = eng.ghost_env
+    # ghost fields: absolute index / implied start time of the node's first segment.  Before the loop (ghosts not
+    # yet initialised) these are the entry values of mod_segment / seg_start_time.
+    a = g['a'] if 'a' in g else eng.lookup('mod_segment')
+    t = g['cur'] if 'cur' in g else eng.lookup('seg_start_time')
+    return Obj('SegmentTimelineElement', {
+        'duration': None, 'count': 0, 'start': None, 'mod_segment': kw.get('mod_segment', 0), 'a': a, 't': t})
+
+
+def timeline(mode):
+    live = mode == 'live'
+    drift = '(R - M)' if live else '0'
+    dcan = (lambda m: f'(d({m}) + ({drift} if {m} == n else 0))') if live else (lambda m: f'd({m})')
+    node_ok = lambda x: (f'({x}.count >= 1 and {x}.duration >= 1 and 1 <= {x}.mod_segment and {x}.mod_segment <= n)')
+    inv = [
+        ('mod_range', '1 <= mod_segment and mod_segment <= n'),
+        ('abs_index', 'a == base + mod_segment and base >= 0 and a >= a0'),
+        ('period', f'forall(lambda i: dx(base + i) == {dcan("i")}, 1, n + 1)'),
+        ('dur', 'dur >= 0 and cur == seg_start_time + dur and (dur == 0) == (a == a0)'),
+        ('fresh_node', '(s_node.count == 0 and is_none(s_node.duration) and is_none(s_node.start) and length(rv) == 0 '
+                       'and s_node.a == a0 and s_node.t == seg_start_time and s_node.mod_segment == a0) if dur == 0 else True'),
+        ('node_fields', f'True if dur == 0 else (not is_none(s_node.duration) and {node_ok("s_node")})'),
+        ('node_run', 'True if dur == 0 else (s_node.a + s_node.count == a and '
+                     's_node.t + s_node.count * optval(s_node.duration) == cur)'),
+        ('node_durations', 'True if dur == 0 else '
+                           'forall(lambda j: dx(s_node.a + j) == optval(s_node.duration), 0, s_node.count)'),
+        ('node_start', 'True if dur == 0 else (is_none(s_node.start) == (length(rv) > 0) and '
+                       '(optval(s_node.start) == seg_start_time if length(rv) == 0 else True))'),
+        ('node_first', 'True if (dur == 0 or length(rv) > 0) else (s_node.a == a0 and s_node.t == seg_start_time)'),
+        ('last_lt_end', 'True if dur == 0 else (dur - optval(s_node.duration) < end and end > 0)'),
+        ('list_nodes', f'forall(lambda k: {node_ok("rv[k]")}, 0, length(rv))'),
+        ('list_first', 'True if length(rv) == 0 else (rv[0].a == a0 and rv[0].t == seg_start_time and '
+                       'not is_none(rv[0].start) and optval(rv[0].start) == seg_start_time)'),
+        ('list_chain', 'forall(lambda k: rv[k].a == rv[k - 1].a + rv[k - 1].count and '
+                       'rv[k].t == rv[k - 1].t + rv[k - 1].count * rv[k - 1].duration and is_none(rv[k].start), '
+                       '1, length(rv))'),
+        ('list_link', 'True if (dur == 0 or length(rv) == 0) else '
+                      '(s_node.a == rv[length(rv) - 1].a + rv[length(rv) - 1].count and '
+                      's_node.t == rv[length(rv) - 1].t + rv[length(rv) - 1].count * rv[length(rv) - 1].duration)'),
+        ('list_durations', 'forall(lambda k, j: (dx(rv[k].a + j) == rv[k].duration) '
+                           'if (k < length(rv) and j < rv[k].count) else True, 0, None)'),
+    ]
+    ens = [
+        ('nonempty', 'length(result) >= 1 if end_ > 0 else length(result) == 0'),
+        ('nodes', f'forall(lambda k: {node_ok("result[k]")}, 0, length(result))'),
+        ('first_start', 'True if length(result) == 0 else (result[0].a == a0 and not is_none(result[0].start) and '
+                        'optval(result[0].start) == tl_start and result[0].t == tl_start)'),
+        ('only_first_has_t', 'forall(lambda k: is_none(result[k].start), 1, length(result))'),
+        ('contiguous', 'forall(lambda k: result[k].a == result[k - 1].a + result[k - 1].count and '
+                       'result[k].t == result[k - 1].t + result[k - 1].count * result[k - 1].duration, 1, length(result))'),
+        ('durations', 'forall(lambda k, j: (dx(result[k].a + j) == result[k].duration) '
+                      'if (k < length(result) and j < result[k].count) else True, 0, None)'),
+        ('covers_window', 'True if length(result) == 0 else '
+                          '(result[length(result) - 1].t + result[length(result) - 1].count * result[length(result) - 1].duration '
+                          '- tl_start >= end_ and '
+                          'result[length(result) - 1].t + (result[length(result) - 1].count - 1) * result[length(result) - 1].duration '
+                          '- tl_start < end_)'),
+    ]
+
+    def env(w):
+        return {'self': rep_obj(w, mode)}
+    req = BASIC + [('ref_compatible', 'S(n - 1) < R'), ('dx_def', 'dx_periodic_live' if live else 'dx_periodic_vod')]
+    if live:
+        req += [('clock', 'live_clock')]
+        ens += [('starts_at_' + lab, t) for lab, t in gsi('tl0', 'a0', 'tl_start', 'origin_time')]
+    else:
+        ens += [('starts_at_zero', 'a0 == 1 and tl_start == 0')]
+    # spec names for the timeline start: in live mode the result of calculate_segment_from_timecode(timeline_start)
+    defs = ['tl0 == (ts * F) // 1000000'] if live else []
+    return Contract(
+        key=f'{REP}:Representation.generateSegmentTimeline', variant=mode,
+        props=['C02', 'C01', 'C09'] if live else ['C06'],
+        env=env, requires=req, defs=defs,
+        lists={'rv': TL_FIELDS, 'result': TL_FIELDS},
+        ctors={'SegmentTimelineElement': ctor_timeline_element},
+        loops={0: Loop(
+            ghost={'a0': 'mod_segment', 'a': 'mod_segment', 'base': '0', 'cur': 'seg_start_time',
+                   'tl_start': 'seg_start_time', 'end_': 'end'},
+            ghost_update={'a': 'a + 1', 'base': 'base + n if mod_segment == 1 else base',
+                          'cur': 'seg_start_time + dur'},
+            invariant=inv,
+            instances=[('dx_periodic_at_base', 'forall(lambda i: dx(base + n + i) == dx(base + i), 1, n + 1)')],
+            types={'s_node.duration': 'opt_int', 's_node.start': 'opt_int'},
+            variant=['end - dur'])},
+        ensures=ens,
+        canaries=['length(result) == 1'],
+        witness_terms=witness(),
+    )
+
+
 # ----------------------------------------------------------------------------- lemmas (C02 / C01)
 def _gsi_facts(w, tc, m, start, origin):
     """get_segment_index's postcondition (GSI_CLAUSES) as z3 facts about (m, start, origin) for timecode tc."""
@@ -403,6 +513,17 @@ def lemma_number_near(w):
                                  start < tc + d(n) - floordiv(d(n), two) + (R - S(n))))
 
 
+def lemma_canonical_contiguity(w):
+    """C02 gaplessness: canonical segments tile the time line - start(L, m) + dur(L, m) is the start of the next
+    canonical segment, also across the loop boundary where the drift correction R - S(n) is added."""
+    n, R, S, d = w['n'], w['R'], w['S'], w['d']
+    L, m = z3.Ints('L m')
+    start = lambda L_, m_: L_ * R + S(m_ - 1)
+    dur = d(m) + z3.If(m == n, R - S(n), 0)
+    return [w['rep_valid'], 1 <= m, m <= n], z3.If(m < n, start(L, m) + dur == start(L, m + 1),
+                                                     start(L, m) + dur == start(L + 1, 1))
+
+
 def lemma_cross_track_alignment(w):
     """C02: when Rref*ts is a multiple of tsref the per-loop duration R of this track, in seconds, equals the
     reference duration exactly (R/ts == Rref/tsref), so tracks stay aligned after any number of loops."""
@@ -435,6 +556,38 @@ def lemma_number_in_window_accepted(w):
     return pc, z3.Not(may)      # "may raise" is false => the call returns (contract: raised => may)
 
 
+def _timeline_entry(w, drop=()):
+    """C01 ($Time$): a SegmentTimeline entry (t, sd) that ends no later than now is accepted by
+    LiveMedia.calculate_media_segment_index(None, t).  Uses: every listed segment is canonical and not earlier than
+    the timeline start (timeline contract), which is within half a segment of floor(ts*F/10^6) (get_segment_index
+    contract, clause `reached`).  Region: uniform durations (all d == sd, R == n*sd: every canonical start is a
+    multiple of sd), start_number <= 1, the entry's number j >= start_number (stream older than its window), leeway
+    W*ts >= (sd//2 + 1)*10^6 + ts, segment duration >= 1 us.  Each dropped assumption is a known finding."""
+    ts, sd, sn, E, F, W, B = (w[k] for k in ('ts', 'sd', 'sn', 'E', 'F', 'W', 'B'))
+    j, t, tl_start, tl0 = z3.Ints('j t tl_start tl0')
+    facts = {
+        'uniform': t == j * sd,
+        'listed': z3.And(j >= 0, t >= tl_start, tl_start + floordiv(sd, z3.IntVal(2)) >= tl0,
+                         tl0 == floordiv(ts * F, z3.IntVal(MILLION))),
+        'ended': (t + sd) * MILLION <= E * ts,
+        'sn_le_1': z3.And(0 <= sn, sn <= 1),
+        'not_young': j >= sn,
+        'leeway': W * ts >= (floordiv(sd, z3.IntVal(2)) + 1) * MILLION + ts,
+        'min_duration': sd * MILLION >= ts,
+    }
+    num = floordiv(t, sd)
+    last = sn + floordiv(floordiv(ts * E, z3.IntVal(MILLION)), sd)
+    first = z3.If(last - 2 - floordiv(ts * B, sd) >= sn, last - 2 - floordiv(ts * B, sd), sn)
+    may = z3.Or(2 * MILLION * t < (2 * (F - W) + 1) * ts, 2 * MILLION * t > (2 * E - 1) * ts, t < 0,
+                num < first, num > last)
+    pc = [ts >= 1, sd >= 1, w['live_clock']] + [f for k, f in facts.items() if k not in drop]
+    return pc, z3.Not(may)
+
+
+def lemma_timeline_entry_accepted(w):
+    return _timeline_entry(w)
+
+
 def lemma_number_in_window_needs_leeway(w):
     """canary: without the leeway region the claim is false (known finding C01-number-leeway)"""
     pc, goal = lemma_number_in_window_accepted(w)
@@ -446,16 +599,22 @@ GROUP = Group(
     world=world,
     contracts=[MEDIA_DURATION_USING_TIMESCALE, GET_SEGMENT_INDEX, CALC_SEGMENT_FROM_TIMECODE, TIMESCALE_TO_TIMEDELTA,
                FL_LIVE, FL_VOD, SNT_LIVE_NUMBER, SNT_LIVE_TIME, SNT_VOD_NUMBER, SNT_VOD_TIME] + MSI +
-              [GENERATE_SEGMENT_LIST],
+              [GENERATE_SEGMENT_LIST, timeline('live'), timeline('vod')],
     lemmas=[
         Lemma('time_exact', ['C02'], lemma_time_exact),
         Lemma('prefix_step', ['C02'], lemma_prefix_monotone),
         Lemma('mod_reference', ['C02'], lemma_mod_reference),
         Lemma('number_near', ['C02'], lemma_number_near),
+        Lemma('canonical_contiguity', ['C02', 'C09'], lemma_canonical_contiguity),
         Lemma('cross_track_alignment', ['C02'], lemma_cross_track_alignment),
         Lemma('cross_track_alignment_without_divisibility', ['C02'], lemma_cross_track_drift_canary, canary=True),
         Lemma('number_in_window_accepted', ['C01'], lemma_number_in_window_accepted),
         Lemma('number_in_window_accepted_without_leeway', ['C01'], lemma_number_in_window_needs_leeway, canary=True),
+        Lemma('timeline_entry_accepted', ['C01'], lemma_timeline_entry_accepted),
+        Lemma('timeline_entry_accepted_without_leeway', ['C01'], lambda w: _timeline_entry(w, ('leeway',)), canary=True),
+        Lemma('timeline_entry_accepted_young_stream', ['C01'], lambda w: _timeline_entry(w, ('not_young',)), canary=True),
+        Lemma('timeline_entry_accepted_start_number_2', ['C01'], lambda w: _timeline_entry(w, ('sn_le_1',)), canary=True),
+        Lemma('timeline_entry_accepted_irregular', ['C01'], lambda w: _timeline_entry(w, ('uniform',)), canary=True),
     ],
     assumptions=[
         'rep_valid: n >= 2 media segments, every stored duration >= 1, timescale >= 1, nominal segment duration >= 1 '
